@@ -1159,6 +1159,375 @@ def nonfinite_corpus():
     return cs
 
 
+# ------------------------------------------------------------------ statement programs with IN-PLACE assignment
+
+# A program is a list of statements over named objects; "sdf" is the streaming frame fed by the source.
+#   ["groupby", var, frame, by, key]   var = frame.groupby('name' | <Series expression over frame>)
+#   ["setitem", frame, col, E]         frame[col] = E(frame)           (in place; new or existing column)
+#   ["col", var, frame, E]             var = E(frame)                   (a streaming Series)
+#   ["select", var, frame, [cols]]     var = frame[[cols]]
+#   ["filter", var, frame, M]          var = frame[M(frame)]
+# The target aggregates one object AFTER all statements:
+#   {"kind":"group","on":gvar,"val":c,...} / {"kind":"col","on":colvar,...} / {"kind":"frame","on":framevar,...}
+# The same interpreter runs the statements on the real streaming objects and, for the oracle, on plain pandas
+# objects (the concatenated prefix / the single batch), in the same order.
+
+def exec_prog(env, stmts):
+    for st in stmts:
+        op = st[0]
+        if op == "groupby":
+            f = env[st[2]]
+            env[st[1]] = f.groupby(st[4][1] if st[3] == "name" else build_c(f, st[4]))
+        elif op == "setitem":
+            f = env[st[1]]
+            f[st[2]] = build_c(f, st[3])
+        elif op == "col":
+            env[st[1]] = build_c(env[st[2]], st[3])
+        elif op == "select":
+            env[st[1]] = env[st[2]][list(st[3])]
+        elif op == "filter":
+            f = env[st[2]]
+            env[st[1]] = f[build_m(f, st[3])]
+        else:
+            raise ValueError(st)
+    return env
+
+
+def prog_agg(env, t, streaming):
+    from streamz.dataframe import aggregations as A
+    agg, ddof = t["agg"], t.get("ddof", 1)
+    obj = env[t["on"]]
+    if t["kind"] == "group":
+        g = getattr(obj, t["val"]) if t.get("attr") else obj[t["val"]]     # value column chosen at aggregation time
+        return getattr(g, agg)(ddof=ddof) if agg in ("var", "std") else getattr(g, agg)()
+    if t["kind"] == "frame":
+        return obj.size if agg == "size" else getattr(obj, agg)()
+    if agg in ("var", "std"):
+        if not streaming:
+            return getattr(obj, agg)(ddof=ddof)
+        v = obj.aggregate(A.Var(ddof=ddof))
+        return v ** 0.5 if agg == "std" else v
+    if agg == "size":
+        return obj.size
+    return getattr(obj, agg)()
+
+
+def prog_rows(env, case):
+    """number of rows that reach the aggregation (pandas objects)"""
+    t = case["target"]
+    if t["kind"] == "group":
+        fr = [st[2] for st in case["stmts"] if st[0] == "groupby" and st[1] == t["on"]][0]
+        return len(env[fr])
+    return len(env[t["on"]])
+
+
+def run_prog_impl(case):
+    from streamz import Stream
+    from streamz.dataframe import DataFrame
+    cols = case["cols"]
+    try:
+        source = Stream()
+        env = exec_prog({"sdf": DataFrame(source, example=example_for(cols))}, case["stmts"])
+        out = prog_agg(env, case["target"], True).stream.sink_to_list()
+    except Exception as e:
+        return {"construct_error": type(e).__name__ + ": " + str(e)[:200]}
+    res, start = [], 0
+    for b in case["batches"]:
+        df = mk_frame(cols, b, start)
+        start += len(df)
+        n_out = len(out)
+        try:
+            source.emit(df)
+        except Exception as e:
+            res.append(("raised", type(e).__name__))
+        else:
+            res.append(out[-1] if len(out) == n_out + 1 else ("emitted", len(out) - n_out))
+    return {"construct_error": None, "results": res}
+
+
+def compile_prog(case):
+    """The functional reading of the program under the stated convention, as an ordinary api case
+    (pipeline + target) for the model; None where the functional form is not expressible."""
+    pipes = {"sdf": []}
+    colvars, groups = {}, {}
+    for st in case["stmts"]:
+        op = st[0]
+        if op == "setitem":
+            pipes[st[1]] = pipes[st[1]] + [["assign", st[2], st[3]]]
+        elif op == "select":
+            pipes[st[1]] = pipes[st[2]] + [["select", list(st[3])]]
+        elif op == "filter":
+            pipes[st[1]] = pipes[st[2]] + [["filter", st[3]]]
+        elif op == "col":
+            colvars[st[1]] = (list(pipes[st[2]]), st[3])                  # value semantics: snapshot
+        elif op == "groupby":
+            groups[st[1]] = (st[2], st[3], st[4], len(pipes[st[2]]))      # reference to the frame object
+    t = case["target"]
+    out = {"kind": "api", "cols": case["cols"], "batches": case["batches"]}
+    if t["kind"] == "col":
+        out["pipe"], expr = colvars[t["on"]]
+        out["target"] = {"kind": "col", "agg": t["agg"], "ddof": t.get("ddof", 1), "expr": expr}
+    elif t["kind"] == "frame":
+        out["pipe"] = pipes[t["on"]]
+        out["target"] = {"kind": "frame", "agg": t["agg"]}
+    else:
+        fr, by, key, n0 = groups[t["on"]]
+        later = {st[1] for st in pipes[fr][n0:] if st[0] == "assign"}
+        if by == "series" and later & cols_in(key):
+            return None           # the grouper Series was computed from columns overwritten afterwards
+        out["pipe"] = pipes[fr]
+        out["target"] = {"kind": "group", "agg": t["agg"], "ddof": t.get("ddof", 1), "key": key, "val": t["val"], "by": by}
+    return out
+
+
+def cols_in(e):
+    if e[0] == "col":
+        return {e[1]}
+    return set().union(*[cols_in(x) for x in e[1:] if isinstance(x, list)])
+
+
+def prog_lines(case):
+    c = compile_prog(case)
+    return api_lines(c) if c is not None else []
+
+
+def check_prog(ctx, case, answers):
+    t = case["target"]
+    cols = case["cols"]
+    ctx.count("prog:%s:%s" % (t["kind"], t["agg"]))
+    ctx.count("prog:pattern:" + case.get("pattern", "?"))
+    with warnings.catch_warnings():
+        warnings.simplefilter("ignore")
+        impl = run_prog_impl(case)
+        if impl["construct_error"]:
+            try:
+                reach = prog_rows(exec_prog({"sdf": example_for(cols).copy()}, case["stmts"]), case)
+            except Exception:
+                reach = -1
+            if reach == 0:
+                # no row of the universe survives the filters: nothing can ever reach the aggregation
+                ctx.count("prog:construct-refused:example-emptied-by-filter")
+            else:
+                ctx.count("prog:construct-error")
+                ctx.failure("prog:construct:" + impl["construct_error"].split(":")[0],
+                            "building the streaming graph raised " + impl["construct_error"], case,
+                            oracle="the same statements are accepted by pandas")
+            ctx.case(case, nontrivial=False)
+            return
+        src, start = [], 0
+        for b in case["batches"]:
+            df = mk_frame(cols, b, start)
+            start += len(df)
+            src.append(df)
+        failed = False
+        n_claims = 0
+        for k in range(len(src)):
+            env = exec_prog({"sdf": concat(src[:k + 1]).copy()}, case["stmts"])
+            got = canon_result(t, impl["results"][k])
+            if prog_rows(env, case) == 0:
+                ctx.count("prog:oracle:no-row-prefix")
+                continue
+            want = canon_result(t, prog_agg(env, t, False))
+            n_claims += 1
+            if not oracle_same(t, got, want):
+                failed = True
+                base = "prog:%s:%s:%s" % (case.get("pattern", "?"), t["kind"], t["agg"])
+                sig = base + (":" + got[0] + ":" + str(got[1]) if isinstance(got, tuple) else ":value-differs")
+                ctx.failure(sig, "after batch %d the stream emitted %s, pandas running the same statements in the same order on "
+                            "the concatenated prefix gives %s" % (k, show(got), show(want)), case,
+                            expected=show(want), observed=show(got),
+                            oracle="emission k == pandas executing the same statement list on pd.concat(batches[:k+1])")
+                break
+        ctx.case(case, nontrivial=n_claims >= 2)
+        if not answers:
+            ctx.count("prog:not-sent-to-model")
+            return
+        comp = compile_prog(case)
+        cols_out = cols_after(cols, comp["pipe"])
+        ok = True
+        for k, a in enumerate(answers[1:]):
+            if "bad-op" in answers[0] or "bad-op" in a:
+                ctx.disagreement("driver refused the compiled program: %r / %r" % (answers[0], a), case)
+                ok = False
+                break
+            got = canon_result(t, impl["results"][k])
+            mod = canon_model_result(comp["target"], cols_out, a["result"])
+            if not same_result(t, got, mod):
+                ctx.disagreement("batch %d: program %s/%s emitted %s, model (functional reading) %s"
+                                 % (k, t["kind"], t["agg"], show(got), show(mod)), case)
+                ok = False
+                break
+        if ok and not failed:
+            ctx.coverage["traces_validated_against_impl"] += 1
+
+
+def gen_prog_case(rng):
+    cols = list(COLS)
+    n = rng.choice([1, 2, 3, 5, 8, 12])
+    rows = gen_table(rng, n, cols)
+    batches = split_rows(rng, rows, cols)
+    while True:
+        c = _gen_prog(rng, cols)
+        if c is not None:
+            c["batches"] = batches
+            return c
+
+
+def _gen_prog(rng, cols):
+    fcols = {"sdf": list(cols)}                 # columns of every frame object
+    cb = {"sdf": {c: 3 for c in cols}}          # magnitude bounds (exactness of the float arithmetic)
+    frozen = {"sdf": set()}                     # by-name groupby keys: not assigned afterwards (pandas resolves them eagerly)
+    stmts = []
+    counter = [0]
+
+    def fresh(p):
+        counter[0] += 1
+        return "%s%d" % (p, counter[0])
+
+    def setitem(fr):
+        cands = [c for c in fcols[fr] if c not in frozen[fr] and c != "g"]
+        new = rng.random() < 0.45 or not cands
+        col = rng.choice([c for c in ("z", "w", "v") if c not in fcols[fr]] or ["z"]) if new else rng.choice(cands)
+        if col in frozen[fr]:
+            return False
+        e = gen_cexpr(rng, fcols[fr], rng.choice([1, 1, 2]))
+        b = bound_c(e, cb[fr])
+        if b > MAXABS:
+            return False
+        stmts.append(["setitem", fr, col, e])
+        if col not in fcols[fr]:
+            fcols[fr] = fcols[fr] + [col]
+        cb[fr] = dict(cb[fr], **{col: b})
+        return col
+
+    def derive_frame(fr):
+        v = fresh("f")
+        if rng.random() < 0.5:
+            stmts.append(["filter", v, fr, gen_mexpr(rng, fcols[fr], 1)])
+            fcols[v] = list(fcols[fr])
+        else:
+            keep = [c for c in fcols[fr] if c == "g" or rng.random() < 0.7]
+            if "g" not in keep and "g" in fcols[fr]:
+                keep.append("g")
+            if not [c for c in keep if c != "g"]:
+                keep = list(fcols[fr])
+            stmts.append(["select", v, fr, keep])
+            fcols[v] = list(keep)
+        cb[v] = {c: cb[fr][c] for c in fcols[v]}
+        frozen[v] = set()
+        return v
+
+    fr = "sdf"
+    if rng.random() < 0.3:                      # prelude
+        if rng.random() < 0.5:
+            if not setitem(fr):
+                return None
+        else:
+            fr = derive_frame(fr)
+    pattern = rng.choice(["groupby-name", "groupby-name", "groupby-series", "groupby-series", "column", "frame", "after"])
+    obj = None
+    if pattern.startswith("groupby"):
+        obj = fresh("g")
+        if pattern == "groupby-name" and "g" in fcols[fr]:
+            stmts.append(["groupby", obj, fr, "name", ["col", "g"]])
+            frozen[fr] = frozen[fr] | {"g"}
+        else:
+            pattern = "groupby-series"
+            key = ["col", "g"] if ("g" in fcols[fr] and rng.random() < 0.5) else gen_cexpr(rng, fcols[fr], 1)
+            if bound_c(key, cb[fr]) > MAXABS:
+                return None
+            stmts.append(["groupby", obj, fr, "series", key])
+    elif pattern == "column":
+        obj = fresh("s")
+        stmts.append(["col", obj, fr, gen_cexpr(rng, fcols[fr], rng.choice([0, 0, 1]))])
+        if bound_c(stmts[-1][3], cb[fr]) > MAXABS:
+            return None
+    elif pattern == "frame":
+        obj = derive_frame(fr)
+    # the in-place assignment(s) AFTER the derived object exists
+    assigned = []
+    for _ in range(rng.choice([1, 1, 2])):
+        target_fr = fr if (pattern != "frame" or rng.random() < 0.6) else obj
+        c = setitem(target_fr)
+        if not c:
+            return None
+        assigned.append((target_fr, c))
+    agg_s = rng.choice(SCALAR_AGGS)
+    if pattern.startswith("groupby"):
+        vals = [c for c in fcols[fr] if c != "g"] or fcols[fr]
+        last = [c for f_, c in assigned if f_ == fr]
+        val = rng.choice(last) if last and rng.random() < 0.7 else rng.choice(vals)
+        t = {"kind": "group", "on": obj, "agg": rng.choice(GROUP_AGGS), "val": val, "ddof": rng.choice([0, 1]),
+             "attr": rng.random() < 0.5}
+    elif pattern == "column":
+        t = {"kind": "col", "on": obj, "agg": agg_s, "ddof": rng.choice([0, 1])}
+    elif pattern == "frame":
+        r = rng.random()
+        if r < 0.4:
+            t = {"kind": "frame", "on": obj, "agg": rng.choice(FRAME_AGGS)}
+        elif r < 0.7:
+            s_ = fresh("s")
+            stmts.append(["col", s_, obj, gen_cexpr(rng, fcols[obj], 1)])
+            if bound_c(stmts[-1][3], cb[obj]) > MAXABS:
+                return None
+            t = {"kind": "col", "on": s_, "agg": agg_s, "ddof": rng.choice([0, 1])}
+        else:
+            g_ = fresh("g")
+            stmts.append(["groupby", g_, obj, "name", ["col", "g"]] if "g" in fcols[obj] else
+                         ["groupby", g_, obj, "series", gen_cexpr(rng, fcols[obj], 0)])
+            t = {"kind": "group", "on": g_, "agg": rng.choice(GROUP_AGGS),
+                 "val": rng.choice([c for c in fcols[obj] if c != "g"] or fcols[obj]), "ddof": rng.choice([0, 1])}
+    else:                                        # objects created after the assignment, from the assigned frame itself
+        r = rng.random()
+        if r < 0.4:
+            t = {"kind": "frame", "on": fr, "agg": rng.choice(FRAME_AGGS)}
+        elif r < 0.7:
+            s_ = fresh("s")
+            stmts.append(["col", s_, fr, gen_cexpr(rng, fcols[fr], 1)])
+            if bound_c(stmts[-1][3], cb[fr]) > MAXABS:
+                return None
+            t = {"kind": "col", "on": s_, "agg": agg_s, "ddof": rng.choice([0, 1])}
+        else:
+            g_ = fresh("g")
+            stmts.append(["groupby", g_, fr, "name", ["col", "g"]] if "g" in fcols[fr] else
+                         ["groupby", g_, fr, "series", gen_cexpr(rng, fcols[fr], 0)])
+            t = {"kind": "group", "on": g_, "agg": rng.choice(GROUP_AGGS), "val": assigned[-1][1], "ddof": rng.choice([0, 1])}
+    return {"kind": "prog", "pattern": pattern, "cols": list(cols), "stmts": stmts, "target": t}
+
+
+def prog_corpus():
+    X, Y, G = ["col", "x"], ["col", "y"], ["col", "g"]
+    bs = [B([1, 2, None], y=[1, 2, 3], g=[0, 1, 2]), B([]), B([3, 3], y=[None, 1], g=[1, None]), B([2], y=[3], g=[0])]
+    y10 = ["binr", "mul", Y, 3]
+    cs = []
+    for by, key in (("name", G), ("series", G), ("series", ["binr", "mul", G, 2])):
+        pat = "groupby-" + by
+        for agg in GROUP_AGGS:
+            # the coordinator's scenario: g = sdf.groupby(k); sdf['y'] = sdf.y * 3; g.y.<agg>()
+            cs.append({"kind": "prog", "pattern": pat, "cols": COLS, "batches": bs,
+                       "stmts": [["groupby", "g1", "sdf", by, key], ["setitem", "sdf", "y", y10]],
+                       "target": {"kind": "group", "on": "g1", "agg": agg, "val": "y", "ddof": 1}})
+        # ... and with a NEW column
+        cs.append({"kind": "prog", "pattern": pat, "cols": COLS, "batches": bs,
+                   "stmts": [["groupby", "g1", "sdf", by, key], ["setitem", "sdf", "w", ["bin", "add", X, Y]]],
+                   "target": {"kind": "group", "on": "g1", "agg": "sum", "val": "w", "ddof": 1, "attr": True}})
+    # a column / a filtered frame / a selection taken BEFORE the assignment keep the old values
+    cs.append({"kind": "prog", "pattern": "column", "cols": COLS, "batches": bs,
+               "stmts": [["col", "s1", "sdf", Y], ["setitem", "sdf", "y", y10]],
+               "target": {"kind": "col", "on": "s1", "agg": "sum"}})
+    cs.append({"kind": "prog", "pattern": "frame", "cols": COLS, "batches": bs,
+               "stmts": [["filter", "f1", "sdf", ["cmpr", "gt", Y, 1]], ["setitem", "sdf", "y", y10]],
+               "target": {"kind": "frame", "on": "f1", "agg": "sum"}})
+    cs.append({"kind": "prog", "pattern": "frame", "cols": COLS, "batches": bs,
+               "stmts": [["select", "f1", "sdf", ["y", "g"]], ["setitem", "f1", "y", y10], ["setitem", "sdf", "y", ["neg", Y]],
+                         ["groupby", "g1", "f1", "name", G]],
+               "target": {"kind": "group", "on": "g1", "agg": "mean", "val": "y", "ddof": 1}})
+    cs.append({"kind": "prog", "pattern": "after", "cols": COLS, "batches": bs,
+               "stmts": [["setitem", "sdf", "y", y10], ["setitem", "sdf", "w", ["bin", "sub", Y, X]]],
+               "target": {"kind": "frame", "on": "sdf", "agg": "mean"}})
+    return cs
+
+
 # ------------------------------------------------------------------ exhaustive tier (direct level, shared prefixes)
 
 def exhaustive_tree(ctx, specs, alphabet, max_rows, max_empty):
@@ -1266,13 +1635,16 @@ def exhaustive_tree(ctx, specs, alphabet, max_rows, max_empty):
 def run_cases(ctx, cases):
     lines, spans = [], []
     for c in cases:
-        ml = [] if c["kind"] == "nonfinite" else (api_lines(c) if c["kind"] == "api" else direct_lines(c))
+        ml = [] if c["kind"] == "nonfinite" else (prog_lines(c) if c["kind"] == "prog" else
+                                                  api_lines(c) if c["kind"] == "api" else direct_lines(c))
         spans.append((len(lines), len(lines) + len(ml)))
         lines += ml
     answers = common.lean_driver("Agg", lines) if lines else []
     for c, (a, b) in zip(cases, spans):
         if c["kind"] == "nonfinite":
             check_api(ctx, c, None)          # oracle only: real streamz vs real pandas
+        elif c["kind"] == "prog":
+            check_prog(ctx, c, answers[a:b])
         elif c["kind"] == "api":
             check_api(ctx, c, answers[a:b])
         else:
@@ -1296,6 +1668,15 @@ def run(ctx):
         "Series results are compared as finite maps key -> value (index order canonicalised)",
         "Frame has no plain .var()/.std(): var/std over the whole history are reached through Frame.aggregate(Var(ddof)) ** 0.5 and through sdf.expanding().var()/std()",
         "Var raises ZeroDivisionError while no row has arrived (prefix without rows: no claim); the harness continues past it",
+        "statement programs (kind 'prog'): `sdf[c] = expr` is executed IN PLACE (streamz rebinds sdf.stream / sdf.example) at different "
+        "points relative to the creation of derived objects; oracle = pandas executing the same statements in the same order on the "
+        "concatenated prefix. Convention (where pandas and the unchanged streamz agree): a groupby OBJECT refers to its frame, so an "
+        "aggregation taken from it later sees columns assigned in between; a column, a selection or a filtered frame taken before the "
+        "assignment keeps the old values (pandas copies, streamz nodes hang below the old stream); the value column is selected from the "
+        "groupby object at aggregation time (pandas' groupby[col] resolves eagerly) and a column used as a by-NAME groupby key is not "
+        "assigned after the groupby object exists (pandas resolves by-name keys when the groupby is created, streamz per batch) - these two "
+        "orders are not generated; the model receives the functional reading of the program (pipeline + target), except when a "
+        "streaming-series grouper was computed from columns overwritten afterwards (oracle only, counted prog:not-sent-to-model)",
         "non-finite values: the Lean model is over exact rationals and has no +-inf, so the cases of kind 'nonfinite' (+-inf written "
         "into the data, or produced by element-wise division by a column containing 0; placed in the first batch the aggregation "
         "receives, in a later batch, or after an initial empty batch) are ORACLE-ONLY: the real stream is compared with real pandas "
@@ -1303,8 +1684,8 @@ def run(ctx):
         "they are never sent to the model driver; they are counted under the 'nonfinite:' keys of the distribution and do not "
         "contribute to traces_validated_against_impl",
     ]
-    n_api, n_direct, n_nonfinite = (1200, 600, 300) if not ctx.thorough() else (8000, 4000, 3000)
-    cases = corpus() + nonfinite_corpus()
+    n_api, n_direct, n_nonfinite, n_prog = (1200, 600, 300, 350) if not ctx.thorough() else (8000, 4000, 3000, 3000)
+    cases = corpus() + nonfinite_corpus() + prog_corpus()
     # every aggregation gets its share of api cases
     aggs = SCALAR_AGGS
     for i in range(n_api):
@@ -1313,6 +1694,8 @@ def run(ctx):
         cases.append(gen_direct_case(ctx.rng, DIRECT_AGGS[i % len(DIRECT_AGGS)]))
     for i in range(n_nonfinite):
         cases.append(gen_nonfinite_case(ctx.rng))
+    for i in range(n_prog):
+        cases.append(gen_prog_case(ctx.rng))
     # chunk so that one driver process handles a bounded script
     for i in range(0, len(cases), 2000):
         run_cases(ctx, cases[i:i + 2000])
@@ -1337,6 +1720,8 @@ def run(ctx):
         "state compared after every call. thorough adds every composition of every table with <=6 rows over {1,2,NaN} (<=5 rows with one empty batch anywhere, "
         "<=4 rows with up to 3 empty batches) for the column aggregations and <=4 rows over {1,2,NaN}x{0,1} (<=3 rows with up to 2 empty batches, "
         "or with NaN keys) for the groupby aggregations, as a prefix tree: real object, model and pandas-on-the-concatenation compared at every node. "
+        "Statement programs (kind prog) place in-place assignments sdf[c] = expr (new and existing columns) between the creation of a "
+        "groupby object / column / selection / filtered frame and the aggregation taken from it. "
         "A separate oracle-only stream (kind nonfinite, not sent to the model) puts +-inf into the aggregated column. Non-trivial api case: >=2 emissions compared with pandas and (an empty batch or a non-empty pipeline); direct: >=2 oracle claims. "
         "Distinct = distinct case JSON.")
 
@@ -1348,6 +1733,11 @@ def replay(ctx, data):
     if c["kind"] == "nonfinite":
         check_api(ctx, c, None)
         ctx.coverage["rule"] = "replay of one recorded oracle-only (non-finite) case"
+        return
+    if c["kind"] == "prog":
+        lines = prog_lines(c)
+        check_prog(ctx, c, common.lean_driver("Agg", lines) if lines else [])
+        ctx.coverage["rule"] = "replay of one recorded statement program"
         return
     lines = api_lines(c) if c["kind"] == "api" else direct_lines(c)
     answers = common.lean_driver("Agg", lines)
